@@ -1181,3 +1181,304 @@ Proof.
   rewrite parse_ops_proto_tail by (try assumption; try reflexivity; lia).
   unfold stmt_exec. rewrite Hm, Hf. unfold sig_els. rewrite split_sig_sig. unfold set_func. rewrite Hm. reflexivity.
 Qed.
+
+(* ---------------------------------------------------------------- local / global lines *)
+
+Lemma parse_ops_elems {A} (tk : A -> list ttok) (pe : A -> sop) (okp : A -> Prop) k st rest :
+  (forall a nops r, okp a -> sig_follow r -> parse_op k nops st (tk a ++ r) = OpPush (pe a) st r) ->
+  (forall a, exists t r, tk a = t :: r /\ t <> TNL /\ t <> TSemi) ->
+  forall els acc fuel, Forall okp els -> (length els < fuel)%nat ->
+    parse_ops fuel k st acc (sep_toks tk els ++ TNL :: rest) = Some (rev acc ++ map pe els, false, st, rest).
+Proof.
+  intros Hop Hhead. induction els as [|e els IH]; intros acc fuel Hok Hfuel.
+  - destruct fuel; [cbn in Hfuel; lia|]. cbn [sep_toks app parse_ops map]. now rewrite app_nil_r.
+  - destruct fuel; [cbn in Hfuel; lia|].
+    pose proof (Forall_inv Hok) as He. pose proof (Forall_inv_tail Hok) as Hoks.
+    destruct (Hhead e) as (t & r & Et & Hn1 & Hn2).
+    destruct els as [|e2 els'].
+    + rewrite sep_toks_one. pose proof (Hop e (length acc) (TNL :: rest) He I) as Ep.
+      rewrite Et in *. cbn [app] in *. rewrite parse_ops_unfold by assumption. cbv zeta. rewrite Ep. cbn [rev map]. reflexivity.
+    + rewrite sep_toks_cons2. rewrite <- app_assoc. cbn [app].
+      pose proof (Hop e (length acc) (TComma :: sep_toks tk (e2 :: els') ++ TNL :: rest) He I) as Ep.
+      rewrite Et in *. cbn [app] in *. rewrite parse_ops_unfold by assumption. cbv zeta. rewrite Ep.
+      rewrite IH by (try assumption; cbn [length] in Hfuel |- *; lia). cbn [rev map]. now rewrite <- app_assoc.
+Qed.
+
+Definition reg_type (t : mtype) : Prop := t = TI64 \/ t = TF \/ t = TD \/ t = TLD.
+
+Lemma parse_op_local nops st v r : reg_type (fst v) -> sig_follow r ->
+  parse_op KLocal nops st (tk_local v ++ r) = OpPush (PVar (fst v) (snd v) None) st r.
+Proof.
+  intros Ht Hf. destruct v as [t n]. cbn [fst snd tk_local app] in *.
+  destruct Ht as [->|[->|[->| ->]]]; reflexivity.
+Qed.
+
+Lemma parse_op_global nops st v r : reg_type (fst (fst v)) -> sig_follow r ->
+  parse_op KGlobal nops st (tk_global v ++ r) = OpPush (PVar (fst (fst v)) (snd (fst v)) (Some (snd v))) st r.
+Proof.
+  intros Ht Hf. destruct v as [[t n] h]. cbn [fst snd tk_global app] in *.
+  destruct Ht as [->|[->|[->| ->]]]; reflexivity.
+Qed.
+
+Definition set_vars (fs : fstate) (ls : list (mtype * name)) (gs : list (mtype * name * name)) : fstate :=
+  mkFstate (fs_name fs) (fs_vararg fs) (fs_res fs) (fs_args fs) ls gs (fs_insns fs).
+
+Lemma fold_locals line ls gs :
+  fold_left (fun acc s => match acc, s with
+                          | Some (ls, gs), PVar t n None => Some ((t, n) :: ls, gs)
+                          | Some (ls, gs), PVar t n (Some h) => Some (ls, (t, n, h) :: gs)
+                          | _, _ => None end)
+            (map (fun v : mtype * name => PVar (fst v) (snd v) None) line) (Some (ls, gs))
+  = Some (rev line ++ ls, gs).
+Proof.
+  revert ls; induction line as [|[t n] line IH]; intros ls; [reflexivity|].
+  cbn [map fold_left fst snd]. rewrite IH. cbn [rev]. now rewrite <- app_assoc.
+Qed.
+
+Lemma fold_globals line ls gs :
+  fold_left (fun acc s => match acc, s with
+                          | Some (ls, gs), PVar t n None => Some ((t, n) :: ls, gs)
+                          | Some (ls, gs), PVar t n (Some h) => Some (ls, (t, n, h) :: gs)
+                          | _, _ => None end)
+            (map (fun v : mtype * name * name => PVar (fst (fst v)) (snd (fst v)) (Some (snd v))) line) (Some (ls, gs))
+  = Some (ls, rev line ++ gs).
+Proof.
+  revert gs; induction line as [|[[t n] h] line IH]; intros gs; [reflexivity|].
+  cbn [map fold_left fst snd]. rewrite IH. cbn [rev]. now rewrite <- app_assoc.
+Qed.
+
+Lemma tk_local_head (a : mtype * name) : exists t r, tk_local a = t :: r /\ t <> TNL /\ t <> TSemi.
+Proof. destruct a as [t n]. eexists _, _. split; [reflexivity | split; discriminate]. Qed.
+Lemma tk_global_head (a : mtype * name * name) : exists t r, tk_global a = t :: r /\ t <> TNL /\ t <> TSemi.
+Proof. destruct a as [[t n] h]. eexists _, _. split; [reflexivity | split; discriminate]. Qed.
+
+Lemma parse_labels_kw kw t r F : (1 <= F)%nat -> t <> TCol ->
+  parse_labels F (TName kw :: t :: r) [] = Some ([], kw, t :: r).
+Proof. intros HF Ht. destruct F; [lia|]. destruct t; try reflexivity. contradiction. Qed.
+
+Lemma sep_toks_head {A} (tk : A -> list ttok) (els : list A) rest :
+  (forall a, exists t r, tk a = t :: r /\ t <> TNL /\ t <> TSemi) ->
+  (forall a t r, tk a = t :: r -> t <> TCol) ->
+  exists t r, sep_toks tk els ++ TNL :: rest = t :: r /\ t <> TCol.
+Proof.
+  intros Hh Hc. destruct els as [|e els].
+  - exists TNL, rest. split; [reflexivity | discriminate].
+  - destruct (Hh e) as (t & r & Et & _). destruct els; [rewrite sep_toks_one | rewrite sep_toks_cons2]; rewrite Et.
+    + eexists _, _. split; [reflexivity | exact (Hc e t r Et)].
+    + rewrite <- app_assoc. cbn [app]. eexists _, _. split; [reflexivity | exact (Hc e t r Et)].
+Qed.
+
+Lemma stmt_local_line st fs line s rest : ss_func st = Some fs -> lrel st s ->
+  Forall (fun v : mtype * name => reg_type (fst v)) line ->
+  exists st', ss_mods st' = ss_mods st /\ ss_mod st' = ss_mod st
+    /\ ss_func st' = Some (set_vars fs (rev line ++ fs_locals fs) (fs_globals fs)) /\ lrel st' s
+    /\ forall F, (length line + 1 < F)%nat ->
+         scan_stmt F st (TName (str "local") :: sep_toks tk_local line ++ TNL :: rest) = SNext st' rest.
+Proof.
+  intros Hfs Hrel Hok.
+  exists (set_func st (set_vars fs (rev line ++ fs_locals fs) (fs_globals fs))).
+  split; [reflexivity|]. split; [reflexivity|]. split; [reflexivity|]. split; [now apply lrel_set_func|].
+  intros F HF. rewrite scan_stmt_name. unfold scan_body.
+  destruct (sep_toks_head tk_local line rest tk_local_head) as (t0 & r0 & E0 & Hc0).
+  { intros [t n] t1 r1 E. inversion E; subst. discriminate. }
+  assert (Pe : parse_ops F KLocal st [] (sep_toks tk_local line ++ TNL :: rest)
+               = Some (rev [] ++ map (fun v : mtype * name => PVar (fst v) (snd v) None) line, false, st, rest)).
+  { apply (parse_ops_elems tk_local (fun v => PVar (fst v) (snd v) None) (fun v => reg_type (fst v))); try assumption; try lia.
+    - intros a nops r Ha Hr. now apply parse_op_local.
+    - apply tk_local_head. }
+  rewrite E0 in *. rewrite parse_labels_kw by (try assumption; lia).
+  assert (Hkd : stmt_kind (str "local") = Some KLocal) by reflexivity. rewrite Hkd.
+  cbn [label_count_bad length Nat.eqb negb is_var andb]. rewrite Hfs. cbn [is_some negb].
+  rewrite Pe. cbn [rev app]. unfold stmt_exec. rewrite Hfs, fold_locals. reflexivity.
+Qed.
+
+Lemma stmt_global_line st fs line s rest : ss_func st = Some fs -> lrel st s ->
+  Forall (fun v : mtype * name * name => reg_type (fst (fst v))) line ->
+  exists st', ss_mods st' = ss_mods st /\ ss_mod st' = ss_mod st
+    /\ ss_func st' = Some (set_vars fs (fs_locals fs) (rev line ++ fs_globals fs)) /\ lrel st' s
+    /\ forall F, (length line + 1 < F)%nat ->
+         scan_stmt F st (TName (str "global") :: sep_toks tk_global line ++ TNL :: rest) = SNext st' rest.
+Proof.
+  intros Hfs Hrel Hok.
+  exists (set_func st (set_vars fs (fs_locals fs) (rev line ++ fs_globals fs))).
+  split; [reflexivity|]. split; [reflexivity|]. split; [reflexivity|]. split; [now apply lrel_set_func|].
+  intros F HF. rewrite scan_stmt_name. unfold scan_body.
+  destruct (sep_toks_head tk_global line rest tk_global_head) as (t0 & r0 & E0 & Hc0).
+  { intros [[t n] h] t1 r1 E. inversion E; subst. discriminate. }
+  assert (Pe : parse_ops F KGlobal st [] (sep_toks tk_global line ++ TNL :: rest)
+               = Some (rev [] ++ map (fun v : mtype * name * name => PVar (fst (fst v)) (snd (fst v)) (Some (snd v))) line, false, st, rest)).
+  { apply (parse_ops_elems tk_global (fun v => PVar (fst (fst v)) (snd (fst v)) (Some (snd v))) (fun v => reg_type (fst (fst v))));
+      try assumption; try lia.
+    - intros a nops r Ha Hr. now apply parse_op_global.
+    - apply tk_global_head. }
+  rewrite E0 in *. rewrite parse_labels_kw by (try assumption; lia).
+  assert (Hkd : stmt_kind (str "global") = Some KGlobal) by reflexivity. rewrite Hkd.
+  cbn [label_count_bad length Nat.eqb negb is_var andb]. rewrite Hfs. cbn [is_some negb].
+  rewrite Pe. cbn [rev app]. unfold stmt_exec. rewrite Hfs, fold_globals. reflexivity.
+Qed.
+
+(* all the lines of one kind *)
+Definition var_lines {A} (kw : string) (tk : A -> list ttok) (lines : list (list A)) : list ttok :=
+  flat_map (fun line => TName (str kw) :: sep_toks tk line ++ [TNL]) lines.
+
+Lemma local_lines_reach rest : forall lines st fs s,
+  ss_func st = Some fs -> lrel st s ->
+  Forall (fun line => Forall (fun v : mtype * name => reg_type (fst v)) line) lines ->
+  exists st', sreaches st (var_lines "local" tk_local lines ++ rest) st' rest
+    /\ ss_mods st' = ss_mods st /\ ss_mod st' = ss_mod st
+    /\ ss_func st' = Some (set_vars fs (rev (List.concat lines) ++ fs_locals fs) (fs_globals fs)) /\ lrel st' s.
+Proof.
+  induction lines as [|line lines IH]; intros st fs s Hfs Hrel Hok.
+  - exists st. split; [apply sreaches_refl|]. split; [reflexivity|]. split; [reflexivity|]. split; [|assumption].
+    rewrite Hfs. destruct fs; reflexivity.
+  - pose proof (Forall_inv Hok) as Hl. pose proof (Forall_inv_tail Hok) as Hls.
+    destruct (stmt_local_line st fs line s (var_lines "local" tk_local lines ++ rest) Hfs Hrel Hl) as (st1 & M1 & M2 & F1 & Hr1 & Hstep).
+    destruct (IH st1 _ s F1 Hr1 Hls) as (st2 & Hre & N1 & N2 & F2 & Hr2).
+    exists st2. split; [|split; [congruence|split; [congruence|split; [|assumption]]]].
+    + eapply sreaches_trans; [|exact Hre].
+      unfold var_lines at 1. cbn [flat_map]. fold (var_lines "local" tk_local lines). rewrite <- app_assoc.
+      apply (sreaches_step st (TName (str "local") :: sep_toks tk_local line ++ [TNL]) (var_lines "local" tk_local lines ++ rest) st1);
+        [cbn; lia|].
+      intros F HF. cbn [app]. rewrite <- app_assoc. cbn [app]. apply Hstep.
+      cbn [length app] in HF. rewrite !app_length in HF. cbn [length] in HF.
+      assert (length line <= length (sep_toks tk_local line))%nat.
+      { clear. induction line as [|[t n] line IHl]; [cbn; lia|]. destruct line as [|v2 l2].
+        - cbn. lia.
+        - rewrite sep_toks_cons2, app_length. cbn [tk_local length] in *. lia. }
+      lia.
+    + rewrite F2. unfold set_vars. cbn [fs_name fs_vararg fs_res fs_args fs_locals fs_globals fs_insns List.concat].
+      rewrite rev_app_distr, <- app_assoc. reflexivity.
+Qed.
+
+Lemma global_lines_reach rest : forall lines st fs s,
+  ss_func st = Some fs -> lrel st s ->
+  Forall (fun line => Forall (fun v : mtype * name * name => reg_type (fst (fst v))) line) lines ->
+  exists st', sreaches st (var_lines "global" tk_global lines ++ rest) st' rest
+    /\ ss_mods st' = ss_mods st /\ ss_mod st' = ss_mod st
+    /\ ss_func st' = Some (set_vars fs (fs_locals fs) (rev (List.concat lines) ++ fs_globals fs)) /\ lrel st' s.
+Proof.
+  induction lines as [|line lines IH]; intros st fs s Hfs Hrel Hok.
+  - exists st. split; [apply sreaches_refl|]. split; [reflexivity|]. split; [reflexivity|]. split; [|assumption].
+    rewrite Hfs. destruct fs; reflexivity.
+  - pose proof (Forall_inv Hok) as Hl. pose proof (Forall_inv_tail Hok) as Hls.
+    destruct (stmt_global_line st fs line s (var_lines "global" tk_global lines ++ rest) Hfs Hrel Hl) as (st1 & M1 & M2 & F1 & Hr1 & Hstep).
+    destruct (IH st1 _ s F1 Hr1 Hls) as (st2 & Hre & N1 & N2 & F2 & Hr2).
+    exists st2. split; [|split; [congruence|split; [congruence|split; [|assumption]]]].
+    + eapply sreaches_trans; [|exact Hre].
+      unfold var_lines at 1. cbn [flat_map]. fold (var_lines "global" tk_global lines). rewrite <- app_assoc.
+      apply (sreaches_step st (TName (str "global") :: sep_toks tk_global line ++ [TNL]) (var_lines "global" tk_global lines ++ rest) st1);
+        [cbn; lia|].
+      intros F HF. cbn [app]. rewrite <- app_assoc. cbn [app]. apply Hstep.
+      cbn [length app] in HF. rewrite !app_length in HF. cbn [length] in HF.
+      assert (length line <= length (sep_toks tk_global line))%nat.
+      { clear. induction line as [|[[t n] h] line IHl]; [cbn; lia|]. destruct line as [|v2 l2].
+        - cbn. lia.
+        - rewrite sep_toks_cons2, app_length. cbn [tk_global length] in *. lia. }
+      lia.
+    + rewrite F2. unfold set_vars. cbn [fs_name fs_vararg fs_res fs_args fs_locals fs_globals fs_insns List.concat].
+      rewrite rev_app_distr, <- app_assoc. reflexivity.
+Qed.
+
+Lemma concat_chunks8 {A} : forall fuel (l : list A), (length l <= fuel)%nat -> List.concat (chunks8 fuel l) = l.
+Proof.
+  induction fuel as [|f IH]; intros l Hl.
+  - destruct l; [reflexivity | cbn in Hl; lia].
+  - destruct l as [|a l']; [reflexivity|]. cbn [chunks8 List.concat].
+    rewrite IH.
+    + apply firstn_skipn.
+    + rewrite skipn_length. cbn [length] in *. lia.
+Qed.
+
+Lemma In_firstn {A} (x : A) : forall n l, In x (firstn n l) -> In x l.
+Proof. induction n as [|n IH]; intros l H; [contradiction|]. destruct l as [|a l]; [contradiction|]. destruct H as [->|H]; [now left | right; now apply IH]. Qed.
+Lemma In_skipn {A} (x : A) : forall n l, In x (skipn n l) -> In x l.
+Proof. induction n as [|n IH]; intros l H; [exact H|]. destruct l as [|a l]; [contradiction|]. right. now apply IH. Qed.
+
+Lemma Forall_chunks8 {A} (P : A -> Prop) : forall fuel (l : list A), Forall P l -> Forall (Forall P) (chunks8 fuel l).
+Proof.
+  induction fuel as [|f IH]; intros l Hl.
+  - destruct l as [|a l']; [constructor|]. cbn [chunks8]. constructor; [assumption | constructor].
+  - destruct l as [|a l']; [constructor|]. cbn [chunks8]. constructor.
+    + apply Forall_forall. intros x Hx. apply (proj1 (Forall_forall P _) Hl). exact (In_firstn x _ _ Hx).
+    + apply IH. apply Forall_forall. intros x Hx. apply (proj1 (Forall_forall P _) Hl). exact (In_skipn x _ _ Hx).
+Qed.
+
+(* ---------------------------------------------------------------- whole functions *)
+
+Definition fs_of_func (f : func) : fstate :=
+  mkFstate (f_name f) (f_vararg f) (f_res f) (map norm_var (f_args f)) (rev (f_locals f)) (rev (f_globals f)) [].
+
+Definition func_ok (items : list item) (f : func) : Prop :=
+  sig_ok (f_res f) (f_args f)
+  /\ Forall (fun v : mtype * name => reg_type (fst v)) (f_locals f)
+  /\ Forall (fun v : mtype * name * name => reg_type (fst (fst v))) (f_globals f)
+  /\ Forall (insn_ok (fs_of_func f) (decl_of items (f_name f))) (f_insns f).
+
+Lemma declared_in_func st mn items fs :
+  ss_mod st = Some (mn, items) -> ss_func st = Some fs ->
+  forall x, declared (as_rstate st) x = decl_of items (fs_name fs) x.
+Proof. intros Hm Hf x. unfold declared, as_rstate, decl_of. cbn. rewrite Hm, Hf. reflexivity. Qed.
+
+Lemma tk_func_form f rest :
+  tk_func f ++ rest
+  = ([TName (f_name f); TCol; TName (str "func")] ++ tk_proto_tail (f_vararg f) (f_res f) (f_args f))
+    ++ var_lines "local" tk_local (chunks8 (length (f_locals f)) (f_locals f))
+    ++ var_lines "global" tk_global (chunks8 (length (f_globals f)) (f_globals f))
+    ++ TNL :: TNL :: label_lines [] ++ flat_map tk_insn (f_insns f) ++ TName (str "endfunc") :: TNL :: rest.
+Proof. unfold tk_func, tk_vars, var_lines. cbn [label_lines flat_map app]. repeat (rewrite <- app_assoc; cbn [app]). reflexivity. Qed.
+
+Lemma insn_ok_regs fs fs' d i :
+  (forall x, func_reg_p fs' x = func_reg_p fs x) -> insn_ok fs d i -> insn_ok fs' d i.
+Proof.
+  intros H. destruct i as [l|c ops]; [tauto|]. cbn [insn_ok]. intros (A & B & C). split; [assumption|]. split; [|assumption].
+  eapply tops_ok_change; [ | | exact B]; [|reflexivity]. intros x. unfold regp_of. apply H.
+Qed.
+
+Lemma item_func st mn items f s s' rest :
+  in_mod st mn items -> lrel st s -> func_ok items f -> l_insns s (f_insns f) = Some s' ->
+  exists st', sreaches st (tk_item (ItFunc f) ++ rest) st' rest /\ item_done st st' mn items (ItFunc (tnorm_func f)) s'.
+Proof.
+  intros Hin Hrel (Hsig & Hloc & Hglob & Hins) Hl. cbn [tk_item]. rewrite tk_func_form.
+  destruct (stmt_func_header st mn items f s
+              (var_lines "local" tk_local (chunks8 (length (f_locals f)) (f_locals f))
+               ++ var_lines "global" tk_global (chunks8 (length (f_globals f)) (f_globals f))
+               ++ TNL :: TNL :: label_lines [] ++ flat_map tk_insn (f_insns f) ++ TName (str "endfunc") :: TNL :: rest)
+              Hin Hrel Hsig) as (st1 & A1 & A2 & A3 & A4 & Hstep1).
+  set (fs1 := mkFstate (f_name f) (f_vararg f) (f_res f) (map norm_var (f_args f)) [] [] []) in *.
+  destruct (local_lines_reach
+              (var_lines "global" tk_global (chunks8 (length (f_globals f)) (f_globals f))
+               ++ TNL :: TNL :: label_lines [] ++ flat_map tk_insn (f_insns f) ++ TName (str "endfunc") :: TNL :: rest)
+              (chunks8 (length (f_locals f)) (f_locals f)) st1 fs1 s A3 A4 (Forall_chunks8 _ _ _ Hloc))
+    as (st2 & Hre2 & B1 & B2 & B3 & B4).
+  rewrite concat_chunks8 in B3 by lia.
+  set (fs2 := set_vars fs1 (rev (f_locals f) ++ fs_locals fs1) (fs_globals fs1)) in *.
+  destruct (global_lines_reach
+              (TNL :: TNL :: label_lines [] ++ flat_map tk_insn (f_insns f) ++ TName (str "endfunc") :: TNL :: rest)
+              (chunks8 (length (f_globals f)) (f_globals f)) st2 fs2 s B3 B4 (Forall_chunks8 _ _ _ Hglob))
+    as (st3 & Hre3 & C1 & C2 & C3 & C4).
+  rewrite concat_chunks8 in C3 by lia.
+  set (fs3 := set_vars fs2 (fs_locals fs2) (rev (f_globals f) ++ fs_globals fs2)) in *.
+  assert (Hm3 : ss_mod st3 = Some (mn, items)) by congruence.
+  destruct (tbody_loop mn items (decl_of items (f_name f)) rest (f_insns f) [] st3 fs3 s s s' Hm3 C3 C4) as (st4 & Hre4 & D1 & D2 & D3 & D4).
+  - apply (declared_in_func st3 mn items fs3 Hm3 C3).
+  - reflexivity.
+  - exact Hl.
+  - eapply Forall_impl; [|exact Hins]. intros i. apply insn_ok_regs. intros x.
+    unfold func_reg_p, fs3, fs2, fs1, set_vars, fs_of_func. cbn [fs_args fs_locals fs_globals]. rewrite !app_nil_r. reflexivity.
+  - exists st4. split.
+    + eapply sreaches_trans.
+      { apply sreaches_step; [cbn; lia|]. intros F HF. rewrite <- app_assoc. apply Hstep1.
+        rewrite !app_length in HF. unfold tk_proto_tail in HF. rewrite !app_length in HF. cbn [length] in HF.
+        assert (length (sig_els (f_res f) (f_args f)) <= length (sep_toks tk_sigel (map SigRes (f_res f) ++ map SigArg (f_args f))))%nat.
+        { unfold sig_els. generalize (map SigRes (f_res f) ++ map SigArg (f_args f)). clear.
+          induction l as [|e l IH]; [cbn; lia|]. destruct l as [|e2 l'].
+          - rewrite sep_toks_one. destruct (tk_sigel_head e) as (t & r & -> & _). cbn. lia.
+          - rewrite sep_toks_cons2, app_length. destruct (tk_sigel_head e) as (t & r & -> & _). cbn [length] in *. lia. }
+        lia. }
+      eapply sreaches_trans; [exact Hre2|]. eapply sreaches_trans; [exact Hre3|].
+      apply sreaches_nl. apply sreaches_nl. exact Hre4.
+    + split; [congruence|]. split; [split; [|exact D3] | exact D4].
+      rewrite D2. do 3 f_equal. unfold close_func, fs_set_insns, tnorm_func, fs3, fs2, fs1, set_vars.
+      cbn [fs_name fs_vararg fs_res fs_args fs_locals fs_globals fs_insns map rev app].
+      rewrite !app_nil_r, !rev_involutive. reflexivity.
+Qed.
